@@ -80,3 +80,23 @@ PROPS["C15"].update({
     "level_note": "Trusted: Coq kernel, the hand-written model of hash/fnv + encoding/binary (validated against the installed Go on each case), the Go harness. 'Never transmitted/adopted/used as client identifier' is the subject of the session model (rugged_load in Session.v, C16).",
     "technique": "Coq proof (FNV-1a step injectivity mod 2^32) + model/implementation correspondence",
 })
+
+SEQ_TB = ["L2 session model Session.v (sequential view; API-level atomic steps) tied by recorded histories: every call into net.Conn/Dialer/Persistence with its answer, returns, completions, exchange events, Online signal",
+          "scripted broker and fault injection in the harness only generate answers; synctest bubbles (virtual time, exact quiescence)"]
+
+PROPS["C08"] = {
+    "modules": ["C08Check"],
+    "runners": [{"name": "C08", "synctest": True}],
+    "theorems": ["c08_write_to", "c08_write_buffers_to", "c08_consume", "c08_write_buffers_to_pinned_refuted"],
+    "partial": ["connection-log invariant of the session model (every reachable connection log = whole packets + one tail) is checked on traces (c08_ok), not yet a theorem",
+                "mutual exclusion of concurrent writers (write token) is argued in DESIGN 6/C08, L3 not built yet"],
+    "rule": "scripted: every split pattern (first/second buffer x accepted count x {timeout, hard, closed}, two-level timeouts) x {Publish, Publish with empty payload, "
+            "PublishAtLeastOnce, PublishExactlyOnceRetained, Subscribe, Ping} after a quiet connect, followed by two ReadSlices; random: histories with write fault rates 10-35 %. "
+            "Non-trivial = at least one failing/short environment answer; distinct = distinct Coq term.",
+    "assumptions": ["net.Buffers.WriteTo on a non-TCP writer (one Write per buffer + consume) is modelled from go1.26 net/net.go and exercised through simConn; TCP writev takes the same consume path (by reading)",
+                    "sequential histories: concurrent submitters are serialised by the write semaphore (not modelled here)"],
+    "trusted_extra": SEQ_TB,
+    "level_text": "Coq theorems for ALL outcome scripts of the two write loops (prefix property; success only if complete; consume leaves the exact suffix) + refutation of the pinned loop (F1); the loops run inside the session model, which is compared with the real client on exhaustive split patterns and on random histories, and the executable checker c08_ok judges every connection's byte stream with the independent parser.",
+    "level_note": "Trusted: Coq kernel; models of net.Buffers/conn.Write; harness. Partial: the whole-packets invariant over all session histories and the L3 write-token exclusion are not theorems yet (see coverage.partial).",
+    "technique": "Coq proof by induction over write-outcome scripts + model/implementation correspondence on exhaustive splits",
+}
